@@ -1,4 +1,5 @@
 open BinNums
+open BinPosDef
 open Datatypes
 
 module Pos :
@@ -8,6 +9,25 @@ module Pos :
   val add : positive -> positive -> positive
 
   val add_carry : positive -> positive -> positive
+
+  val pred_double : positive -> positive
+
+  type mask = Pos.mask =
+  | IsNul
+  | IsPos of positive
+  | IsNeg
+
+  val succ_double_mask : mask -> mask
+
+  val double_mask : mask -> mask
+
+  val double_pred_mask : positive -> mask
+
+  val sub_mask : positive -> positive -> mask
+
+  val sub_mask_carry : positive -> positive -> mask
+
+  val mul : positive -> positive -> positive
 
   val compare_cont : comparison -> positive -> positive -> comparison
 
